@@ -137,6 +137,11 @@ def run_check(prop, tier, seed, replay=None):
                         model_out = None
                 impl_out = impl_out + prop.run_impl(ws, more, ctx)
                 cases = cases + more
+        if os.environ.get('VERIF_DUMP'):
+            # debugging aid: everything that was asked and answered, as json lines
+            with open(os.environ['VERIF_DUMP'], 'w') as fdump:
+                for i, c in enumerate(cases):
+                    fdump.write(json.dumps({'case': c.as_json(), 'impl': impl_out[i], 'model': model_out[i] if model_out is not None else None}) + '\n')
         disagreements = []
         unmodelled = 0
         distinct = set()
